@@ -158,85 +158,37 @@ func runC03(c *Ctx) {
 		abort("anchor: errExit/errStop not found")
 	}
 
-	// ---------- (1) loop operators catch exit
+	// ---------- (1) loop operators catch exit; (5) loop protocol: decided on the evaluator
+	_ = exe
+	c.loopOperatorRules()
 	loopOps := map[*ssa.Function]bool{}
-	nLoopCalls := 0
-	for _, e := range reg.builtins() {
-		f := e.fn
-		fname := c.fname(f)
-		for _, call := range staticCalls(f, exe) {
-			if !inCycle(call.Block()) {
+	for _, op := range []string{"for", "forall", "loop", "repeat"} {
+		loopOps[reg.op("systemdict", op)] = true
+	}
+	// helpers of the loop operators: functions called from loop operators (or their helpers) only
+	cgr := c.callgraph()
+	for changed := true; changed; {
+		changed = false
+		for _, f := range c.modFuncs {
+			if loopOps[f] || f.Signature.Recv() == nil && f.Object() != nil && f.Object().Exported() {
 				continue
 			}
-			loopOps[f] = true
-			nLoopCalls++
-			res, _ := call.(ssa.Value)
-			loop := loopBlocks(call.Block())
-			construct := e.key + ": procedure result compared with the exit signal"
-			// find `res == errExit`
-			var exitIf *ssa.If
-			var exitEdge int
-			stopCompared := false
-			for _, r := range *res.Referrers() {
-				bo, ok := r.(*ssa.BinOp)
-				if !ok || (bo.Op != token.EQL && bo.Op != token.NEQ) {
-					continue
-				}
-				other := bo.Y
-				if bo.Y == res {
-					other = bo.X
-				}
-				g := globalLoad(other)
-				if g == errStop {
-					stopCompared = true
-				}
-				if g != errExit {
-					continue
-				}
-				for _, rr := range *bo.Referrers() {
-					if ifi, ok := rr.(*ssa.If); ok {
-						exitIf = ifi
-						exitEdge = 0
-						if bo.Op == token.NEQ {
-							exitEdge = 1
-						}
-					}
-				}
-			}
-			if stopCompared {
-				c.fail("CTL-EXIT", fname, e.key+": stop signal intercepted by a loop operator", call.Pos(), "the loop operator compares the procedure's result with the stop signal: `stop` must end the program, only `exit` leaves the loop")
-			}
-			if exitIf == nil {
-				c.fail("CTL-EXIT", fname, construct, call.Pos(), "the result of running the loop body is never compared with the exit signal: `exit` inside "+e.key+" does not leave the loop (it surfaces as invalidexit)")
+			n := cgr.Nodes[f]
+			if n == nil || len(n.In) == 0 {
 				continue
 			}
-			ok, why := reachesNilReturn(exitIf.Block().Succs[exitEdge], loop, exe)
-			if !ok {
-				c.fail("CTL-EXIT", fname, construct, call.Pos(), "on the exit signal the operator does not simply leave the loop and return nil: it "+why)
-				continue
-			}
-			// other errors are propagated: on the not-exit edge, `res != nil` returns res
-			propagated := false
-			for _, r := range *res.Referrers() {
-				if ret, ok := r.(*ssa.Return); ok && ret.Results[len(ret.Results)-1] == res {
-					for _, cd := range domConds(ret.Block()) {
-						if m, ok := asCmp(cd); ok && m.op == token.NEQ && m.x == res && isNilConst(m.y) {
-							propagated = true
-						}
-					}
-				}
-				if st, ok := r.(*ssa.Store); ok && st.Val == res {
-					propagated = true // named result cell (function with defers)
+			all := true
+			for _, e := range n.In {
+				if !loopOps[e.Caller.Func] {
+					all = false
 				}
 			}
-			if !propagated {
-				c.fail("CTL-EXIT", fname, e.key+": other errors propagated", call.Pos(), "an error other than the exit signal returned by the loop body is not returned by "+e.key)
-				continue
+			if all {
+				loopOps[f] = true
+				changed = true
 			}
-			c.ok("CTL-EXIT", fname, construct, call.Pos(), "== errExit → leave loop → return nil; other errors returned", "")
 		}
 	}
-	c.floor("CTL-EXIT", 6)
 	// the signals are compared nowhere else, except in Execute
 	execute := c.method("postscript", "Interpreter", "Execute")
 	for _, f := range c.modFuncs {
@@ -273,8 +225,6 @@ func runC03(c *Ctx) {
 	// ---------- (4) exactly one branch
 	c.branches(ia, reg)
 
-	// ---------- (5) loop protocol
-	c.loopProtocol(ia, reg)
 }
 
 func (c *Ctx) stopBecomesNil(tb *ssa.BasicBlock, m cmp) bool {
